@@ -146,7 +146,10 @@ type reqRec struct {
 	Err     string
 	Start   int64
 	End     int64
-	Twin    bool   // sent to the twin cluster (another cluster listing some of the same upstreams, with its own flags)
+	// ReadyThroughout: every endpoint this request may be picked to reported ready right before AND right after the
+	// stable burst it belongs to (probes are at least a ticker period apart, so it was ready in between as well)
+	ReadyThroughout bool
+	Twin            bool // sent to the twin cluster (another cluster listing some of the same upstreams, with its own flags)
 	Method  string
 }
 
@@ -436,21 +439,45 @@ func union(a, b map[int]bool) map[int]bool {
 }
 
 // stableBurst sends n concurrent requests while nothing changes.
+func (h *hist) allReady(set map[int]bool) bool {
+	for e := range set {
+		ep := h.endpoint(e)
+		if ep == nil || !ep.IsReady() {
+			return false
+		}
+	}
+	return true
+}
+
 func (h *hist) stableBurst(g *vkit.Rand, n, step int) {
 	snap := h.m.clone()
+	readyBefore := make([]bool, h.np)
+	for p := 0; p < h.np; p++ {
+		readyBefore[p] = h.allReady(snap.pickable(p, h.k))
+	}
+	var mine []*reqRec
+	defer func() {
+		for _, rec := range mine {
+			rec.ReadyThroughout = readyBefore[rec.Policy] && h.allReady(rec.Allowed)
+		}
+	}()
 	var wg sync.WaitGroup
 	for i := 0; i < n; i++ {
 		p := g.Intn(h.np)
 		rg := g.Fork("s")
 		wg.Add(1)
 		twin := h.twinHost != "" && g.Chance(0.25)
+		rec := &reqRec{Policy: p, Phase: "stable", Step: step, After: snap, Allowed: snap.pickable(p, h.k)}
+		if !twin {
+			mine = append(mine, rec)
+		}
 		go func() {
 			defer wg.Done()
 			if twin {
 				h.send(rg, &reqRec{Policy: 0, Phase: "twin", Step: step, After: snap, Allowed: h.twinAllowed(), Twin: true})
 				return
 			}
-			h.send(rg, &reqRec{Policy: p, Phase: "stable", Step: step, After: snap, Allowed: snap.pickable(p, h.k)})
+			h.send(rg, rec)
 		}()
 	}
 	wg.Wait()
@@ -497,6 +524,23 @@ func (h *hist) closeInterval(di *disInt, to int64) {
 			if t > di.from+int64(settle) && t < to && t <= lo {
 				h.r.Count("observation_probe_retries_of_an_in_flight_check_after_disable", 1)
 			}
+		}
+	}
+	// the grace window is not exempt altogether: it stands for the probe(s) in flight when the sync returned - one per
+	// checker generation, at most two - so more than two probes in it are judged (not when the stub closes connections:
+	// one probe call then retries every second)
+	if !di.removed && !h.modeActive(di.stub, bed.HealthClose, di.from-int64(probeTimeout+settle), to) {
+		early := 0
+		for _, t := range h.probes(di.stub) {
+			if t > di.from && t <= di.from+int64(settle) && t < to {
+				early++
+			}
+		}
+		h.r.Count("probes_within_the_grace_window_after_disable", early)
+		if early > 2 {
+			h.r.Violation("C03/disabled/probe-while-disabled/more-than-the-in-flight-ones-within-the-grace-window",
+				fmt.Sprintf("endpoint was marked disabled (sync returned), yet its stub logged %d /healthz probes within %v after that; at most two can have been in flight when the sync returned (class %s)", early, settle, di.class),
+				map[string]interface{}{"history": h.id, "stub": di.stub, "class": di.class, "probes_in_grace_window": early, "model": h.m.clone()})
 		}
 	}
 	var late, all, pokes []float64
@@ -1166,6 +1210,13 @@ func (h *hist) judge(changes interface{}) {
 		// must not consist of refusals (Require below).
 		if rec.Phase == "stable" {
 			r.Count("stable_not_forwarded_although_pickable", 1)
+			// "When no such endpoint exists the client gets 503": a 503 in a phase in which nothing changes, while every
+			// endpoint the request may be picked to reported ready before and after the burst, says "no such endpoint" when
+			// one exists. (Around a change, at start-up and while a belief may be stale a refusal is unavoidable: not judged.)
+			if rec.Status == 503 && rec.ReadyThroughout {
+				r.Violation("C03/stable/refused-although-pickable",
+					fmt.Sprintf("request %s (policy %d) got 503 and was not forwarded in a stable phase although stubs %v may be picked and reported ready before and after the burst", rec.ID, rec.Policy, keys(rec.Allowed)), w)
+			}
 		}
 	}
 	// a request id that reached a stub but is unknown to the client side cannot happen (ids are generated here)
